@@ -75,7 +75,22 @@ CFG = dict(
                "out of range, preserves well-formedness and layout, get-after-set laws; try_as_slice_mut is offered exactly when "
                "try_as_slice is and a write through it at k IS the logical write at k (so a reversed view offers no mutable "
                "slice; the memory-order variant is refuted with a witness); vget = get then to_opt on every container, position i "
-               "of to_opt_iter is vget(i), opt_iter_cast = cast after to_opt_iter, iter_cast = cast after get. All model functions are functions of that logical sequence by construction. The container "
+               "of to_opt_iter is vget(i), opt_iter_cast = cast after to_opt_iter, iter_cast = cast after get. "
+               "Audit YB (58 further theorems, notes/C07.md has the clause-by-clause matrix): the VecDeque laws under the weaker "
+               "ring_wf0 (also the deque without allocation, which ring_wf excluded and the run produces); iteration = the two halves "
+               "of as_slices() concatenated, reverse iteration, sub-slicing and checked get for ring / strided (any stride) / chunked "
+               "(also a slice that keeps its chunks); the reversed view IS the reversed sequence (involutive), the stepped view takes "
+               "every k-th element; try_as_slice is offered EXACTLY when the ring has not wrapped / the view has stride 1 or at most one "
+               "element, and is then complete; Arc is transparent; the option view's len / get / slice / rev over every backend; a view "
+               "is determined by (len, uget): two containers of any kinds with equal length and equal uget have the same logical "
+               "sequence (the bridge to the generic algorithms); the MaybeUninit output buffer: uset slot / length / commutation laws, "
+               "uninit exposes nothing, assume_init exactly when every slot is written, stores in any order (slot j = last value stored "
+               "at j) and as a permutation (slot j = THE value), a missing store is detected; a fresh VecDeque / Array1 / Arc / single "
+               "chunk reads back the collected sequence; the lazy forms collected / written through write_trust_iter; the returned and "
+               "caller-buffer paths of every rolling feature agree for EVERY window (hypothesis 1 <= w dropped; window 0 rejected alike). "
+               "REFUTED for the slice form at window 0 (C07_out_path_custom_window0_refuted): the lazy path underflows on `window - 1` "
+               "before the assertion, so the two paths differ on every series and on the empty series one returns [] while the other "
+               "panics - the known row of the degenerate table in notes/C02.md, a clean panic in C10's sense. All model functions are functions of that logical sequence by construction. The container "
                "semantics of std/ndarray/Polars are modelled; the tie is the accessor correspondence plus the exhaustive "
                "backend x container x path matrix run on the implementation.",
     level_note="Trusted: Coq kernel; the container models (std VecDeque, ndarray views, Polars chunked arrays are external "
